@@ -13,7 +13,7 @@ RULE = ('one obligation = path condition AND negated assertion over symbolic reg
         'violations (reads outside the n-element registry) and unwinding failures (non-termination) are defects with a model; '
         'distinct = (entry, n, sortedness, path, assertion)')
 SIZES_Q = [0, 1, 2, 3, 4, 5, 6, 7, 8, 9, 10, 11, 12, 16, 33]
-SIZES_T = list(range(0, 21)) + [24, 28, 32, 33, 40]
+SIZES_T = list(range(0, 21)) + [24, 28, 32, 33]
 
 
 def items(a, thorough):
@@ -26,12 +26,14 @@ def items(a, thorough):
             lim = max(64, n * n + 32)
             if n > 16 and not s and not thorough:
                 continue
+            if n > 20 and not s:
+                continue            # unsorted registries above 20 entries: outside the bound (linear search, cost only)
             out.append(dict(name='by_name/n=%02d/%s' % (n, tag), entry='c10_by_name', args=[n, s, 0, 0], timeout=to,
                             loop_limit=lim, budget_s=900 if thorough else 400, feas_ms=60000))
-            if n <= 12 or thorough:
+            if n <= 12 or (thorough and n <= 20):
                 out.append(dict(name='by_id_index/n=%02d/%s' % (n, tag), entry='c10_by_id_index', args=[n, s, 0, 0],
                                 timeout=to, loop_limit=lim, budget_s=900 if thorough else 400, feas_ms=60000))
-            if n <= 8 or (thorough and n <= 20):
+            if n <= 8 or (thorough and n <= 12):
                 out.append(dict(name='manager/n=%02d/%s' % (n, tag), entry='c10_manager', args=[n, s, 0, 0], timeout=to,
                                 loop_limit=lim, budget_s=900 if thorough else 400, feas_ms=60000))
     for i in range(268):
